@@ -1482,7 +1482,12 @@ func (c *Conn) unpackDatagram(buf []byte) ([][]byte, error) {
 		return nil, nil
 	}
 	common := dtlsstate.CommonState(c.state)
-	if common.LocalVersion.Equal(protocol.Version1_3) ||
+	// While a dual-stack endpoint has not settled the version yet, a DTLS 1.3
+	// peer may already pack protected records behind its ServerHello in one
+	// datagram; the DTLS 1.2 unpacker would reject the whole datagram.
+	versionUndecided := common.LocalVersion.Equal(protocol.Version{}) &&
+		c.handshakeConfig != nil && c.handshakeConfig.MaxVersion.Equal(protocol.Version1_3)
+	if common.LocalVersion.Equal(protocol.Version1_3) || versionUndecided ||
 		protocol.IsDTLS13Ciphertext(protocol.ContentType(buf[0])) {
 		cidLength := len(common.LocalConnectionIDForInboundRecords())
 		state13, is13 := c.state.(*dtlsstate.State13)
